@@ -26,8 +26,41 @@ class Fill:
         return "Fill(%r)" % (self.n,)
 
 
+class Txt:
+    """Segment that is the UTF-8 encoding of a (possibly symbolic) ``str`` free of CR and LF.  The bytes are never
+    materialised: ``decode`` hands the str back, the length is the UTF-8 length computed from the code points, searches
+    for CR/LF needles skip it, and a cut inside it is outside the model.  Lets request lines built from symbolic
+    characters enter through ``data_received`` instead of through a private method."""
+    __slots__ = ("s", "_n")
+
+    def __init__(self, s):
+        self.s = s
+        self._n = None
+
+    @property
+    def n(self):
+        if self._n is None:
+            t = 0
+            for ch in self.s:
+                o = ord(ch)
+                t += 1 if o < 0x80 else 2 if o < 0x800 else 3 if o < 0x10000 else 4
+            self._n = t
+        return self._n
+
+    def __repr__(self):
+        return "Txt(%r)" % (self.s,)
+
+
 def _is_fill(s):
     return type(s) is Fill
+
+
+def _is_txt(s):
+    return type(s) is Txt
+
+
+def _slen(s):
+    return s.n if (type(s) is Fill or type(s) is Txt) else len(s)
 
 
 def _flatten(segs):
@@ -47,10 +80,12 @@ def _norm(segs):
                 out[-1] = Fill(out[-1].n + s.n)
             else:
                 out.append(s)
+        elif _is_txt(s):
+            out.append(s)
         else:
             if len(s) == 0:
                 continue
-            if out and not _is_fill(out[-1]):
+            if out and not _is_fill(out[-1]) and not _is_txt(out[-1]):
                 out[-1] = out[-1] + s
             else:
                 out.append(s)
@@ -79,6 +114,12 @@ def _is_real_bytes(s):
         return type(s) is bytes
     with NoTracing():
         return type(s) is bytes
+
+
+def _txt_needle(needle):
+    for b in bytes(needle):
+        if b not in (13, 10):
+            raise HarnessError("search inside a Txt segment for something other than CR/LF")
 
 
 def _seg_rfind(s, needle):
@@ -128,7 +169,7 @@ class SymBuf(bytes):
     def __len__(self):
         t = 0
         for s in self.segs:
-            t = t + (s.n if _is_fill(s) else len(s))
+            t = t + _slen(s)
         return t
 
     def total(self):
@@ -153,8 +194,11 @@ class SymBuf(bytes):
         if FILL_BYTE in bytes(needle):
             raise HarnessError("needle contains the filler byte")
         off = 0
-        for s in self.segs:
+        for k, s in enumerate(self.segs):
             if _is_fill(s):
+                off = off + s.n
+            elif _is_txt(s):
+                _txt_needle(needle)
                 off = off + s.n
             else:
                 i = _seg_find(s, needle)
@@ -212,9 +256,12 @@ class SymBuf(bytes):
         off = 0
         for s in self.segs:
             ends.append(off)
-            off = off + (s.n if _is_fill(s) else len(s))
+            off = off + _slen(s)
         for s, start in zip(reversed(self.segs), reversed(ends)):
             if _is_fill(s):
+                continue
+            if _is_txt(s):
+                _txt_needle(needle)
                 continue
             i = _seg_rfind(s, needle)
             if i >= 0:
@@ -263,7 +310,7 @@ class SymBuf(bytes):
             if done:
                 right.append(s)
                 continue
-            ln = s.n if _is_fill(s) else len(s)
+            ln = _slen(s)
             if k >= off + ln:
                 left.append(s)
                 off = off + ln
@@ -272,6 +319,10 @@ class SymBuf(bytes):
                 if _is_fill(s):
                     left.append(Fill(d))
                     right.append(Fill(s.n - d))
+                elif _is_txt(s):
+                    if d != 0:
+                        raise HarnessError("cut inside a Txt segment")
+                    right.append(s)
                 else:
                     d = _small(d, len(s))
                     left.append(s[:d])
@@ -327,6 +378,13 @@ class SymBuf(bytes):
 
     # ---- conversion -------------------------------------------------------------------
     def decode(self, enc="utf-8", errors="strict"):
+        if any(_is_txt(s) for s in self.segs):
+            text = ""
+            for s in self.segs:
+                if _is_fill(s):
+                    raise HarnessError("decode of a buffer mixing Txt and Fill")
+                text = text + (s.s if _is_txt(s) else s.decode(enc, errors))
+            return text
         out = b""
         has_fill = False
         for s in self.segs:
@@ -345,7 +403,7 @@ class SymBuf(bytes):
         """Real ``bytes`` with every Fill expanded (concrete replays only)."""
         out = b""
         for s in self.segs:
-            out += (FILL_BYTE * int(s.n)) if _is_fill(s) else bytes(s)
+            out += (FILL_BYTE * int(s.n)) if _is_fill(s) else s.s.encode("utf-8") if _is_txt(s) else bytes(s)
         return out
 
     def __buffer__(self, flags):
@@ -356,8 +414,8 @@ class SymBuf(bytes):
     def concrete_if_plain(self):
         out = b""
         for s in self.segs:
-            if _is_fill(s):
-                raise HarnessError("comparison touches a Fill segment")
+            if _is_fill(s) or _is_txt(s):
+                raise HarnessError("comparison touches a Fill/Txt segment")
             out = out + s
         return out
 
@@ -374,10 +432,13 @@ class SymBuf(bytes):
             if len(a) != len(b):
                 return False
         for s, t in zip(a, b):
-            if _is_fill(s) != _is_fill(t):
+            if _is_fill(s) != _is_fill(t) or _is_txt(s) != _is_txt(t):
                 return False
             if _is_fill(s):
                 if s.n != t.n:
+                    return False
+            elif _is_txt(s):
+                if s.s != t.s:
                     return False
             elif s != t:
                 return False
@@ -465,7 +526,7 @@ class RealBuf(bytes):
     def __new__(cls, segs=()):
         out = b""
         for s in _flatten(list(segs)):
-            out += (FILL_BYTE * int(s.n)) if _is_fill(s) else bytes(s)
+            out += (FILL_BYTE * int(s.n)) if _is_fill(s) else s.s.encode("utf-8") if _is_txt(s) else bytes(s)
         return bytes.__new__(cls, out)
 
     def __init__(self, segs=()):
